@@ -67,6 +67,10 @@ CONSTANTS NT,         \* threads 1..NT
           MaxPoison,  \* how many values may start failing
           InitLists,  \* set of pre-loaded contents (sequences of <<k,v>>, MRU first)
           OpKinds,    \* subset of {"Put","Get","Del","Len","Size","Range"}
+          Callback,   \* the cache has an onDelete callback (WithDeleteCallback); the callback is a
+                      \* yield point inside the locked section (the driver's callback parks)
+          Waits,      \* calls may be started while another thread is inside its locked section:
+                      \* they park on the mutex and go on when it is released
           FixUnlock, FixLocked, FixPutDrop, FixDelKeep
 
 VARIABLES ll, elems, index, size, mtx, bad,
@@ -110,7 +114,7 @@ Fresh(s)  == CHOOSE e \in Pool \ LiveOf(s) : \A f \in Pool \ LiveOf(s) : e <= f
 \* Observables (and the internal projection used for drift) of a state record.
 ObsOf(s) ==
   LET fr == IF s.mtx = 0 THEN 1 ELSE 0
-  IN  [cap   |-> Cap, sizes |-> Sizes, scale |-> Scale, free |-> fr,
+  IN  [cap   |-> Cap, sizes |-> Sizes, scale |-> Scale, cb |-> IF Callback THEN 1 ELSE 0, free |-> fr,
        len   |-> IF fr = 1 THEN Len(s.ll) ELSE NA,
        size  |-> IF fr = 1 THEN s.size ELSE NA,
        range |-> [k \in Keys |-> IF s.index[k] = 0 THEN 0 ELSE s.elems[s.index[k]].v],
@@ -123,7 +127,7 @@ Obs == ObsOf(S)
 
 A(o, t, step, call, ret, res, rr) ==
   [op |-> o.op, t |-> t, k |-> o.k, v |-> o.v, step |-> step,
-   call |-> call, ret |-> ret, res |-> res, rr |-> rr]
+   call |-> call, ret |-> ret, res |-> res, rr |-> rr, w |-> 0, wret |-> 0, wres |-> 0]
 
 \* Unreferenced elements are reset so that histories merge.
 Norm(n) ==
@@ -148,19 +152,6 @@ Ret(s, t) == [s EXCEPT !.pc[t] = "idle", !.cur[t] = NullOp, !.lel[t] = 0, !.nel[
 \* lru.go evict(needed): the loop `for c.capacity-c.size < needed` in uint64
 \* arithmetic (a size above the capacity or a wrapped one makes the
 \* difference huge, so nothing is evicted).
-RECURSIVE EvictLoop(_, _, _, _, _, _)
-EvictLoop(el, l, ix, sz, needed, ev) ==
-  IF ~(sz >= 0 /\ sz <= Cap /\ Cap - sz < needed)
-  THEN [ok |-> TRUE, ll |-> l, index |-> ix, size |-> sz, ev |-> ev]
-  ELSE IF l = <<>>
-  THEN [ok |-> FALSE, ll |-> l, index |-> ix, size |-> sz, ev |-> ev]   \* "all elements got evicted"
-  ELSE LET e == l[Len(l)]
-           ent == el[e]
-       IN  IF ent.v \in bad
-           THEN [ok |-> FALSE, ll |-> l, index |-> ix, size |-> sz, ev |-> ev]
-           ELSE EvictLoop(el, SubSeq(l, 1, Len(l) - 1), [ix EXCEPT ![ent.k] = 0],
-                          sz - Sizes[ent.v], needed, TRUE)
-
 \* Does the next step of an operation o started now need the mutex?
 StartNeedsLock(o) ==
   \/ o.op \in {"Len", "Size"}
@@ -168,41 +159,91 @@ StartNeedsLock(o) ==
   \/ FixLocked /\ o.op = "Put" /\ ~(o.v \in bad \/ Sizes[o.v] > Cap)
 
 ----------------------------------------------------------------------------
-\* Step "load": invocation up to the hook after the index access.
+\* Step "load": invocation up to the hook after the index access, as a
+\* function of the state record s (used by Start, and by Unlock for a thread
+\* that was waiting for the mutex).  Result: [s, ret, res, rr].
+StartFx(s, t, o) ==
+  LET lk == IF FixLocked THEN t ELSE s.mtx    \* the mutex after a load that goes on
+      go(s2) == [s |-> s2, ret |-> 0, res |-> 0, rr |-> <<>>]
+      done(res, rr) == [s |-> Ret(s, t), ret |-> 1, res |-> res, rr |-> rr]
+  IN
+  CASE o.op = "Put" ->
+         IF o.v \in s.bad \/ Sizes[o.v] > Cap
+         THEN done(ERR, <<>>)
+         ELSE go([s EXCEPT !.pc[t] = "loaded", !.cur[t] = o, !.lel[t] = s.index[o.k], !.mtx = lk])
+    [] o.op = "Get" ->
+         IF s.index[o.k] = 0
+         THEN done(NF, <<>>)
+         ELSE go([s EXCEPT !.pc[t] = "loaded", !.cur[t] = o, !.lel[t] = s.index[o.k], !.mtx = lk])
+    [] o.op = "Del" ->
+         IF s.index[o.k] = 0
+         THEN done(NF, <<>>)
+         ELSE go([s EXCEPT !.pc[t] = "loaded", !.cur[t] = o, !.lel[t] = s.index[o.k],
+                           !.index[o.k] = IF FixLocked /\ FixDelKeep THEN @ ELSE 0, !.mtx = lk])
+    [] o.op = "Len"  -> done(Len(s.ll), <<>>)
+    [] o.op = "Size" -> done(s.size, <<>>)
+    [] o.op = "Range" ->
+         done(0, [k \in Keys |-> IF s.index[k] = 0 THEN 0 ELSE s.elems[s.index[k]].v])
+
+NoWaiter == \A u \in Threads : pc[u] # "waiting"
+
 Start(t, o) ==
   /\ phase = 1 /\ pc[t] = "idle" /\ cnt[t] < OpsPer
   /\ (t > 1 => cnt[t - 1] > 0)          \* threads are numbered in the order they first start
   /\ o \in MyOps
-  /\ StartNeedsLock(o) => mtx = 0
-  /\ LET s0 == [S EXCEPT !.cnt[t] = @ + 1]
-         lk == IF FixLocked THEN t ELSE mtx    \* the mutex after a load that goes on
-     IN
-     CASE o.op = "Put" ->
-            IF o.v \in bad \/ Sizes[o.v] > Cap
-            THEN Commit(s0, A(o, t, "load", 1, 1, ERR, <<>>))
-            ELSE Commit([s0 EXCEPT !.pc[t] = "loaded", !.cur[t] = o, !.lel[t] = index[o.k],
-                                   !.mtx = lk],
-                        A(o, t, "load", 1, 0, 0, <<>>))
-       [] o.op = "Get" ->
-            IF index[o.k] = 0
-            THEN Commit(s0, A(o, t, "load", 1, 1, NF, <<>>))
-            ELSE Commit([s0 EXCEPT !.pc[t] = "loaded", !.cur[t] = o, !.lel[t] = index[o.k],
-                                   !.mtx = lk],
-                        A(o, t, "load", 1, 0, 0, <<>>))
-       [] o.op = "Del" ->
-            IF index[o.k] = 0
-            THEN Commit(s0, A(o, t, "load", 1, 1, NF, <<>>))
-            ELSE Commit([s0 EXCEPT !.pc[t] = "loaded", !.cur[t] = o, !.lel[t] = index[o.k],
-                                   !.index[o.k] = IF FixLocked /\ FixDelKeep THEN @ ELSE 0, !.mtx = lk],
-                        A(o, t, "load", 1, 0, 0, <<>>))
-       [] o.op = "Len"  -> Commit(s0, A(o, t, "load", 1, 1, Len(ll), <<>>))
-       [] o.op = "Size" -> Commit(s0, A(o, t, "load", 1, 1, size, <<>>))
-       [] o.op = "Range" ->
-            Commit(s0, A(o, t, "load", 1, 1, 0,
-                         [k \in Keys |-> IF index[k] = 0 THEN 0 ELSE elems[index[k]].v]))
+  /\ StartNeedsLock(o) => (mtx = 0 /\ NoWaiter)
+  /\ LET fx == StartFx([S EXCEPT !.cnt[t] = @ + 1], t, o)
+     IN  Commit(fx.s, A(o, t, "load", 1, fx.ret, fx.res, fx.rr))
+
+\* A call that needs the mutex while another thread is inside its locked
+\* section parks on the mutex (the invocation is visible, nothing else).  It
+\* goes on when that thread unlocks (see Unlock).  One waiter at a time.
+StartWait(t, o) ==
+  /\ Waits /\ FixLocked /\ FixUnlock
+  /\ phase = 1 /\ pc[t] = "idle" /\ cnt[t] < OpsPer
+  /\ (t > 1 => cnt[t - 1] > 0)
+  /\ o \in MyOps /\ StartNeedsLock(o)
+  /\ mtx \in Threads /\ mtx # t /\ NoWaiter
+  /\ Commit([S EXCEPT !.cnt[t] = @ + 1, !.pc[t] = "waiting", !.cur[t] = o],
+            A(o, t, "load", 1, 0, WAIT, <<>>))
+
+\* One decision of the evict loop (lru.go evict): enough room / error / victim.
+EvictNext(s, needed) ==
+  IF ~(s.size >= 0 /\ s.size <= Cap /\ Cap - s.size < needed) THEN [st |-> "done", e |-> 0]
+  ELSE IF s.ll = <<>> THEN [st |-> "fail", e |-> 0]
+  ELSE LET e == s.ll[Len(s.ll)]
+       IN  IF s.elems[e].v \in s.bad THEN [st |-> "fail", e |-> 0] ELSE [st |-> "victim", e |-> e]
+
+\* Put inside its locked section, old element already gone: run the evict
+\* loop.  With Callback the thread parks inside the onDelete callback of every
+\* victim: the victim's size is already subtracted, the victim is still in the
+\* list and in the index (the order of lru.go evict).  lres[t] carries the
+\* "evicted" flag, nel[t] the victim while in the callback.
+RECURSIVE PutProgress(_, _)
+PutProgress(s, t) ==
+  LET o == s.cur[t]
+      d == EvictNext(s, Sizes[o.v])
+  IN
+  CASE d.st = "fail" ->
+         [s EXCEPT !.pc[t] = "locked", !.nel[t] = 0,
+                   !.ex[t] = IF FixUnlock THEN "errB" ELSE "leak", !.lres[t] = ERR]
+    [] d.st = "victim" ->
+         LET ent == s.elems[d.e]
+             s1  == [s EXCEPT !.size = @ - Sizes[ent.v]]
+         IN  IF Callback
+             THEN [s1 EXCEPT !.pc[t] = "cb", !.nel[t] = d.e]
+             ELSE PutProgress([s1 EXCEPT !.ll = RemoveEl(@, d.e), !.index[ent.k] = 0, !.lres[t] = 1], t)
+    [] OTHER ->
+         LET ne == Fresh(s)
+         IN  [s EXCEPT !.pc[t] = "locked",
+                       !.ll = <<ne>> \o @,
+                       !.elems[ne] = [k |-> o.k, v |-> o.v],
+                       !.index[o.k] = IF FixLocked THEN ne ELSE @,
+                       !.size = @ + Sizes[o.v],
+                       !.nel[t] = ne, !.ex[t] = "ok"]
 
 \* Step "cs": Lock (unless already held) and the locked section, up to the
-\* hook before Unlock / return.
+\* hook before Unlock / return, or up to the first onDelete callback.
 CS(t) ==
   /\ pc[t] = "loaded"
   /\ IF FixLocked THEN mtx = t ELSE mtx = 0
@@ -214,24 +255,12 @@ CS(t) ==
             IF e # 0 /\ elems[e].v \in bad
             THEN \* "couldn't determine size of existing cache value": unlocks
                  Commit([s0 EXCEPT !.ex[t] = "errA", !.lres[t] = ERR], A(o, t, "cs", 0, 0, 0, <<>>))
-            ELSE LET l1 == IF e # 0 THEN RemoveEl(ll, e) ELSE ll
-                     z1 == IF e # 0 THEN size - Sizes[elems[e].v] ELSE size
-                     i1 == IF e # 0 /\ FixPutDrop THEN [index EXCEPT ![o.k] = 0] ELSE index
-                     r  == EvictLoop(elems, l1, i1, z1, Sizes[o.v], FALSE)
-                     ne == Fresh(S)
-                 IN  IF ~r.ok
-                     THEN Commit([s0 EXCEPT !.ll = r.ll, !.index = r.index, !.size = r.size,
-                                            !.ex[t] = IF FixUnlock THEN "errB" ELSE "leak",
-                                            !.lres[t] = ERR],
-                                 A(o, t, "cs", 0, 0, 0, <<>>))
-                     ELSE Commit([s0 EXCEPT !.ll = <<ne>> \o r.ll,
-                                            !.elems[ne] = [k |-> o.k, v |-> o.v],
-                                            !.index = IF FixLocked THEN [r.index EXCEPT ![o.k] = ne]
-                                                      ELSE r.index,
-                                            !.size = r.size + Sizes[o.v],
-                                            !.nel[t] = ne, !.ex[t] = "ok",
-                                            !.lres[t] = IF r.ev THEN 1 ELSE 0],
-                                 A(o, t, "cs", 0, 0, 0, <<>>))
+            ELSE LET s1 == IF e # 0
+                           THEN [s0 EXCEPT !.ll = RemoveEl(@, e),
+                                           !.size = @ - Sizes[elems[e].v],
+                                           !.index[o.k] = IF FixPutDrop THEN 0 ELSE @]
+                           ELSE s0
+                 IN  Commit(PutProgress([s1 EXCEPT !.lres[t] = 0], t), A(o, t, "cs", 0, 0, 0, <<>>))
        [] o.op = "Get" ->
             Commit([s0 EXCEPT !.ll = IF InL(ll, e) THEN <<e>> \o RemoveEl(ll, e) ELSE ll,
                               !.lres[t] = elems[e].v],
@@ -239,19 +268,47 @@ CS(t) ==
        [] o.op = "Del" ->
             IF elems[e].v \in bad
             THEN Commit([s0 EXCEPT !.lres[t] = NF], A(o, t, "cs", 0, 0, 0, <<>>))
+            ELSE IF Callback
+            THEN \* parked in the onDelete callback, nothing changed yet
+                 Commit([s0 EXCEPT !.pc[t] = "cb"], A(o, t, "cs", 0, 0, 0, <<>>))
             ELSE Commit([s0 EXCEPT !.ll = RemoveEl(ll, e), !.size = size - Sizes[elems[e].v],
                                    !.index[o.k] = IF FixLocked /\ FixDelKeep THEN 0 ELSE @,
                                    !.lres[t] = elems[e].v],
                         A(o, t, "cs", 0, 0, 0, <<>>))
 
-\* Step "unlock".
+\* Step "cb": the onDelete callback returns; the locked section goes on up to
+\* the next callback or the hook before Unlock.
+CB(t) ==
+  /\ pc[t] = "cb"
+  /\ LET o == cur[t]
+     IN  IF o.op = "Put"
+         THEN LET e   == nel[t]
+                  ent == elems[e]
+              IN  Commit(PutProgress([S EXCEPT !.ll = RemoveEl(@, e), !.index[ent.k] = 0,
+                                               !.lres[t] = 1, !.nel[t] = 0], t),
+                         A(o, t, "cb", 0, 0, 0, <<>>))
+         ELSE LET e == lel[t]
+              IN  Commit([S EXCEPT !.pc[t] = "locked", !.ll = RemoveEl(@, e),
+                                   !.size = @ - Sizes[elems[e].v],
+                                   !.index[o.k] = IF FixLocked /\ FixDelKeep THEN 0 ELSE @,
+                                   !.lres[t] = elems[e].v],
+                         A(o, t, "cb", 0, 0, 0, <<>>))
+
+\* Step "unlock".  A thread waiting for the mutex gets it in the same step
+\* and runs to the hook after its index access (or returns): act.w, wret, wres.
 Unlock(t) ==
   /\ pc[t] = "locked"
   /\ LET o  == cur[t]
          s0 == [S EXCEPT !.mtx = IF ex[t] = "leak" THEN -1 ELSE 0]
+         ws == {u \in Threads : pc[u] = "waiting"}
      IN  IF o.op = "Put" /\ ex[t] = "ok" /\ ~FixLocked
          THEN Commit([s0 EXCEPT !.pc[t] = "unlocked"], A(o, t, "unlock", 0, 0, 0, <<>>))
-         ELSE Commit(Ret(s0, t), A(o, t, "unlock", 0, 1, lres[t], <<>>))
+         ELSE IF ws = {} \/ s0.mtx # 0
+         THEN Commit(Ret(s0, t), A(o, t, "unlock", 0, 1, lres[t], <<>>))
+         ELSE LET u  == CHOOSE x \in ws : TRUE
+                  fx == StartFx(Ret(s0, t), u, cur[u])
+              IN  Commit(fx.s, [A(o, t, "unlock", 0, 1, lres[t], <<>>)
+                                EXCEPT !.w = u, !.wret = fx.ret, !.wres = fx.res])
 
 \* Step "store" (Put only, code without FixLocked).
 Store(t) ==
@@ -279,7 +336,7 @@ Poison(v) ==
   /\ \E t \in Threads : cnt[t] < OpsPer
   /\ Commit([S EXCEPT !.bad = @ \cup {v}, !.npoison = @ + 1],
             [op |-> "Poison", t |-> 0, k |-> 0, v |-> v, step |-> "env",
-             call |-> 0, ret |-> 0, res |-> 0, rr |-> <<>>])
+             call |-> 0, ret |-> 0, res |-> 0, rr |-> <<>>, w |-> 0, wret |-> 0, wres |-> 0])
 
 \* The empty cache is pre-loaded (sequential Puts by the driver).
 Setup(l) ==
@@ -293,7 +350,7 @@ Setup(l) ==
                                                     THEN CHOOSE i \in 1..n : l[i][1] = k ELSE 0],
                           !.size = SumL(l, Sizes)],
                 [op |-> "Setup", t |-> 0, k |-> 0, v |-> 0, step |-> "env",
-                 call |-> 0, ret |-> 0, res |-> 0, rr |-> l])
+                 call |-> 0, ret |-> 0, res |-> 0, rr |-> l, w |-> 0, wret |-> 0, wres |-> 0])
 
 Init ==
   /\ ll = <<>> /\ elems = [e \in Pool |-> NullE] /\ index = [k \in Keys |-> 0]
@@ -304,13 +361,13 @@ Init ==
   /\ cnt = [t \in Threads |-> 0] /\ phase = 0 /\ npoison = 0
   /\ abs = AbsInit
   /\ act = [op |-> "Init", t |-> 0, k |-> 0, v |-> 0, step |-> "env",
-            call |-> 0, ret |-> 0, res |-> 0, rr |-> <<>>]
+            call |-> 0, ret |-> 0, res |-> 0, rr |-> <<>>, w |-> 0, wret |-> 0, wres |-> 0]
   /\ viol = {}
 
 Next ==
   \/ \E l \in InitLists : Setup(l)
-  \/ \E t \in Threads : \E o \in MyOps : Start(t, o) \/ BlockedStart(t, o)
-  \/ \E t \in Threads : CS(t) \/ Unlock(t) \/ Store(t) \/ BlockedCS(t)
+  \/ \E t \in Threads : \E o \in MyOps : Start(t, o) \/ StartWait(t, o) \/ BlockedStart(t, o)
+  \/ \E t \in Threads : CS(t) \/ CB(t) \/ Unlock(t) \/ Store(t) \/ BlockedCS(t)
   \/ \E v \in Vals : Poison(v)
 
 vars == <<ll, elems, index, size, mtx, bad, pc, cur, lel, nel, lres, ex, cnt, phase, npoison,
@@ -320,7 +377,7 @@ Spec == Init /\ [][Next]_vars
 ----------------------------------------------------------------------------
 TypeOK ==
   /\ mtx \in (-1..NT)
-  /\ \A t \in Threads : pc[t] \in {"idle", "loaded", "locked", "unlocked", "blocked"}
+  /\ \A t \in Threads : pc[t] \in {"idle", "loaded", "locked", "unlocked", "blocked", "cb", "waiting"}
   /\ \A k \in Keys : index[k] \in 0..MaxEl
   /\ \A i \in 1..Len(ll) : ll[i] \in Pool
 
